@@ -13,14 +13,28 @@ Definition E_Other := 99.   (* any exception class outside the enum, e.g. FileNo
 (* ====================================================================== part 1: conversions, then write *)
 
 (* one value of a record's results dictionary, in dictionary order:
-   ms_kind  0 = None (skipped), 2 = a ModuleResults instance, anything else = some other object
+   ms_kind  0 = None (skipped: `if m_results is None: continue`), 2 = an instance of (a subclass of)
+            ModuleResults, anything else = a value of an invalid type (1 dict, 3 list, 4 str, 5 int, 6 bool,
+            7 an object that has a to_json method but is no ModuleResults, 8 a plain object)
    ms_fault 0 = to_json returns, k <> 0 = to_json raises the exception with code k
    ms_val   the payload returned by to_json
    ms_late  what json.dumps meets inside the returned payload:
             0 = only standard types, 1 = an object whose to_json succeeds,
-            2 = an object without conversion method (_base_convertor raises TypeError),
-            anything else = an object whose to_json raises (orjson turns that into JSONEncodeError <: TypeError) *)
-Record mspec := mkM { ms_kind : Z; ms_fault : Z; ms_val : Z; ms_late : Z }.
+            2 = a value orjson cannot encode and _base_convertor has no conversion for (TypeError),
+            anything else = an object whose to_json raises (orjson turns that into JSONEncodeError <: TypeError)
+   ms_truth how bool(value) comes out - NEVER READ by the code (the skip test is `is None`, not truthiness):
+            0 = an object without __len__ / __bool__ (truthy), 1 = __len__ > 0, 2 = __len__ == 0 (falsy, like an
+            antismash.modules.tta.TTAResults without features), 3 = __bool__ returns False, 4 = __bool__ returns
+            True although __len__ == 0, 5 = an empty / zero builtin value (falsy), 6 = a non-empty builtin value,
+            7 = a subclass of the real TTAResults without features (falsy), 8 = the same with a feature
+   ms_ret   shape of the value returned by to_json: 0 = {"v": val [, "c": object]}, 1 = None, 2 = [val [, object]],
+            3 = the bare number val, 4 = a string, 5 = val and the object three containers deep, 6 = the object
+            inside a tuple, 7 = {} (shapes 1, 3, 4, 7 have no place for an object: ms_late = 0 there; 1 and 7
+            show nothing of val)
+   ms_tfault 0 = evaluating bool(value) returns, k <> 0 = it raises the exception with code k (a __bool__ or
+            __len__ that raises): the debug line `... for mod, resultv in result.items() if resultv` evaluates
+            the truthiness of every value of the record's dictionary before the first module is converted *)
+Record mspec := mkM { ms_kind : Z; ms_fault : Z; ms_val : Z; ms_late : Z; ms_truth : Z; ms_ret : Z; ms_tfault : Z }.
 
 (* one record: fault codes (0 = none) of the four per-record conversions, in the order of dump_records:
    secmet.to_biopython(), record_to_json(record), gather_record_areas(secmet), secmet.get_gc_content();
@@ -28,7 +42,7 @@ Record mspec := mkM { ms_kind : Z; ms_fault : Z; ms_val : Z; ms_late : Z }.
 Record rspec := mkR { r_f1 : Z; r_f2 : Z; r_f3 : Z; r_f4 : Z; r_orig : bool }.
 
 (* what the conversion loop produces per module / per record *)
-Record mjson := mkMJ { mj_key : Z; mj_val : Z; mj_late : Z }.
+Record mjson := mkMJ { mj_key : Z; mj_val : Z; mj_late : Z; mj_shape : Z }.
 Definition rjson := (bool * list mjson)%type.
 
 (* contents of the target: absent, the previous run's bytes, truncated, or the text of converted data *)
@@ -64,6 +78,15 @@ Definition hook (code i j fault : Z) : M unit :=
   if fault =? 0 then ret tt else raise fault.
 Definition log_error (w : world) : world := mkW (w_file w) (w_log w + 1) (w_trace w).
 
+(* if result: logging.debug("...", ", ".join([... for mod, resultv in result.items() if resultv])):
+   the argument is built whatever the log level; bool(resultv) of every value, in dictionary order; nothing
+   else is observable of it (no event: how often truthiness is looked at is not part of the model) *)
+Fixpoint probe_truth (ms : list mspec) : M unit :=
+  match ms with
+  | [] => ret tt
+  | m :: rest => if ms_tfault m =? 0 then probe_truth rest else raise (ms_tfault m)
+  end.
+
 (* for module, m_results in result.items(): ... *)
 Fixpoint conv_modules (i j : Z) (ms : list mspec) : M (list mjson) :=
   match ms with
@@ -73,7 +96,7 @@ Fixpoint conv_modules (i j : Z) (ms : list mspec) : M (list mjson) :=
     else if ms_kind m =? 2 then                                             (* isinstance ModuleResults *)
       doM _ <- hook 5 i j (ms_fault m);
       doM tl <- conv_modules i (j + 1) rest;
-      ret (mkMJ j (ms_val m) (ms_late m) :: tl)
+      ret (mkMJ j (ms_val m) (ms_late m) (ms_ret m) :: tl)
     else raise E_Type                                                       (* invalid type *)
   end.
 
@@ -90,6 +113,7 @@ Fixpoint conv_records (i : Z) (results : list (list mspec)) (records : list rspe
       doM _ <- hook 2 i 0 (r_f2 r);
       doM _ <- hook 3 i 0 (r_f3 r);
       doM _ <- hook 4 i 0 (r_f4 r);
+      doM _ <- probe_truth ms;
       doM mods <- conv_modules i 0 ms;
       doM tl <- conv_records (i + 1) results' records';
       ret ((r_orig r, mods) :: tl)
@@ -172,9 +196,12 @@ Definition module_faulty (m : mspec) : bool :=
 Definition late_faulty (late : Z) : bool := negb (late =? 0) && negb (late =? 1).
 Definition module_late_faulty (m : mspec) : bool := (ms_kind m =? 2) && late_faulty (ms_late m).
 
+Definition truth_fails (ms : list mspec) : bool := existsb (fun m => negb (ms_tfault m =? 0)) ms.
+
 Definition stage1_fails (records : list rspec) (results : list (list mspec)) : bool :=
   (length results <? length records)%nat
-  || existsb (fun p => record_faulty (fst p) || existsb module_faulty (snd p)) (combine records results).
+  || existsb (fun p => record_faulty (fst p) || truth_fails (snd p) || existsb module_faulty (snd p))
+             (combine records results).
 Definition stage2_fails (records : list rspec) (results : list (list mspec)) : bool :=
   existsb (fun p => existsb module_late_faulty (snd p)) (combine records results).
 (* some conversion fails: write_to_file looks at everything; dump_records does not serialise timings,
@@ -184,13 +211,25 @@ Definition conversion_fails (records : list rspec) (results : list (list mspec))
 Definition conversion_fails_dump (records : list rspec) (results : list (list mspec)) (hk : Z) : bool :=
   stage1_fails records results || (negb (hk =? 4) && stage2_fails records results).
 
+(* the failures that do not depend on whether (or how often) the code looks at the truthiness of a value: used
+   by the run-time specifications below.  A plan whose only fault is a raising bool(value) MAY fail (the code as
+   it is evaluates it in a debug line and does fail: conversion_fails, the theorems); the property is met either
+   way as long as a reported failure leaves the target untouched *)
+Definition stage1_core_fails (records : list rspec) (results : list (list mspec)) : bool :=
+  (length results <? length records)%nat
+  || existsb (fun p => record_faulty (fst p) || existsb module_faulty (snd p)) (combine records results).
+Definition core_fails (records : list rspec) (results : list (list mspec)) (tl : Z) : bool :=
+  stage1_core_fails records results || stage2_fails records results || late_faulty tl.
+Definition core_fails_dump (records : list rspec) (results : list (list mspec)) (hk : Z) : bool :=
+  stage1_core_fails records results || (negb (hk =? 4) && stage2_fails records results).
+
 (* the data a fault-free conversion yields *)
 Fixpoint expected_modules (j : Z) (ms : list mspec) : list mjson :=
   match ms with
   | [] => []
   | m :: rest =>
     if ms_kind m =? 0 then expected_modules (j + 1) rest
-    else mkMJ j (ms_val m) (ms_late m) :: expected_modules (j + 1) rest
+    else mkMJ j (ms_val m) (ms_late m) (ms_ret m) :: expected_modules (j + 1) rest
   end.
 Definition expected_data (records : list rspec) (results : list (list mspec)) : list rjson :=
   map (fun p => (r_orig (fst p), expected_modules 0 (snd p))) (combine records results).
@@ -367,7 +406,7 @@ Definition pipeline_spec_ok (v : env) (kind : Z) (reuse : bool) (entries : list 
   let s0 := cstate (initial_content hk) in
   forallb (fun e => negb (fst e <=? 7) || (snd e =? s0)) evs
   && forallb (fun e => negb (ST_ANNOTATE <=? fst e) || (snd e =? 3)) evs
-  && (if conversion_fails records results 0
+  && (if core_fails records results 0
       then negb ok0 && (state' =? s0) && forallb (fun e => fst e <? ST_ANNOTATE) evs else true)
   && (if (kind =? 1) && negb reuse && existsb (foreign v) entries
       then negb ok0 && (kind' =? 1) && zlist_eqb after (ids entries) && (state' =? s0)
@@ -376,7 +415,7 @@ Definition pipeline_spec_ok (v : env) (kind : Z) (reuse : bool) (entries : list 
 
 (* ====================================================================== encoding *)
 Definition dM : dec mspec := fun l =>
-  match l with a :: b :: c :: d :: r => Some (mkM a b c d, r) | _ => None end.
+  match l with a :: b :: c :: d :: e :: f :: g :: r => Some (mkM a b c d e f g, r) | _ => None end.
 Definition dR : dec rspec := fun l =>
   match l with a :: b :: c :: d :: e :: r => Some (mkR a b c d (negb (e =? 0)), r) | _ => None end.
 Definition dE (id : Z) : dec entry := fun l =>
@@ -391,8 +430,11 @@ Fixpoint number_entries (i : Z) (l : list entry) : list entry :=
   | e :: r => mkE i (en_name e) (en_visible e) (en_input e) (en_isdir e) (en_region e) :: number_entries (i + 1) r
   end.
 
-Definition eMJret (m : mjson) : list Z := [mj_key m; mj_val m; mj_late m].
-Definition eMJtext (m : mjson) : list Z := [mj_key m; mj_val m; if mj_late m =? 1 then mj_val m else -1].
+(* what of the payload shows in the returned value / in the text: None and {} show nothing of val *)
+Definition shown_val (m : mjson) : Z := if (mj_shape m =? 1) || (mj_shape m =? 7) then 0 else mj_val m.
+Definition eMJret (m : mjson) : list Z := [mj_key m; mj_shape m; shown_val m; mj_late m].
+Definition eMJtext (m : mjson) : list Z :=
+  [mj_key m; mj_shape m; shown_val m; if mj_late m =? 1 then mj_val m else -1].
 Definition eData (em : mjson -> list Z) (d : list rjson) : list Z :=
   eList (fun p : rjson => eBool (fst p) ++ eList em (snd p)) d.
 Definition eContent (c : content) : list Z :=
@@ -425,13 +467,16 @@ Definition dWriteInput : dec (Z * Z * list rspec * list (list mspec)) :=
 
 (* the observed outcome of write_to_file / dump_records as sent by the harness:
    error flag, state of the target afterwards, states seen by the conversion events *)
-Definition write_spec_ok (fails : bool) (hk : Z) (err : bool) (state' : Z) (ev_states : list Z) : bool :=
+Definition write_spec_ok (fails may_fail : bool) (hk : Z) (err : bool) (state' : Z) (ev_states : list Z) : bool :=
   let s0 := cstate (initial_content hk) in
+  let unfailing :=                                      (* what is asked when no conversion fails *)
+    if hk =? 3 then err && (state' =? s0)
+    else if hk =? 5 then err                            (* an I/O failure: reported; the property asks no more *)
+    else negb err && ((state' =? 3) || (hk =? 4)) in
   forallb (Z.eqb s0) ev_states &&
   (if fails then err && (state' =? s0)
-   else if hk =? 3 then err && (state' =? s0)
-   else if hk =? 5 then err                            (* an I/O failure: reported; the property asks no more *)
-   else negb err && ((state' =? 3) || (hk =? 4))).
+   else if may_fail then (err && (state' =? s0)) || unfailing   (* bool(value) raised, or was never evaluated *)
+   else unfailing).
 
 Definition run_C20 (fn : Z) (l : list Z) : list Z :=
   match fn with
@@ -467,9 +512,11 @@ Definition run_C20 (fn : Z) (l : list Z) : list Z :=
   | 11 | 12 =>
          match dPair dWriteInput (dPair (dPair dBool dZ) (dList dZ)) l with
          | Some (hk, tl, records, results, (err, state', states), []) =>
-           let fails := if fn =? 11 then conversion_fails records results tl
-                        else conversion_fails_dump records results hk in
-           eBool (write_spec_ok fails hk err state' states) ++ [1; 0]
+           let fails := if fn =? 11 then core_fails records results tl
+                        else core_fails_dump records results hk in
+           let may_fail := if fn =? 11 then conversion_fails records results tl
+                           else conversion_fails_dump records results hk in
+           eBool (write_spec_ok fails may_fail hk err state' states) ++ [1; 0]
          | _ => bad_input end
   | 13 => match dPair (dPair (dPair (dPair (dPair dEnv dZ) dBool) dBool) (dList (dE 0)))
                         (dPair (dPair dBool dZ) (dList dZ)) l with
